@@ -93,6 +93,8 @@ Section Hist.
     - destruct (repay_withdraw_good _ _ _ _ _ _ _ HG H). tauto.
     - destruct (fund_mod_good _ _ _ _ _ _ _ _ HG H). tauto.
     - destruct (fund_reserve_good _ _ _ _ _ _ _ HG H). tauto.
+    - destr_all H. injection H as <-. split; [exact HG|reflexivity].
+    - destr_all H. injection H as <-. split; [exact HG|reflexivity].
   Qed.
 
   Lemma apply_op_good st o : Good cfg st -> kf_C08_2 st o = false -> Good cfg (apply_op cfg st o).
